@@ -169,6 +169,34 @@ pub fn build(r: &mut Rng, kind: ConnKind, client: Endpoint, server: Endpoint, o:
         let (h, a, b, sq, ak, ecr) = if from_client { (&hc, client, server, seq_c, seq_s, hs.tsval(t)) } else { (&hs, server, client, seq_s, seq_c, hc.tsval(t)) };
         steps.push(Step { dt_ns: g, seg: tcp::data(h, a, b, sq, ak, vec![], t, ecr, pkt::ACK) });
     }
+    // teardown, for one connection in three: FIN on the last data segment of a side or as a bare segment,
+    // sometimes a reset (bare or with a few bytes) as the very last thing
+    if r.chance(1, 3) {
+        for from_client in [true, false] {
+            match r.below(3) {
+                0 => {
+                    // FIN rides on that side's last data segment
+                    if let Some(st) = steps.iter_mut().rev().find(|st| (st.seg.src == client) == from_client && !st.seg.payload.is_empty()) {
+                        st.seg.flags |= pkt::FIN;
+                    }
+                }
+                1 => {
+                    let g = gap(r, &mut t);
+                    let (h, a, b, sq, ak, ecr) = if from_client { (&hc, client, server, seq_c, seq_s, hs.tsval(t)) } else { (&hs, server, client, seq_s, seq_c, hc.tsval(t)) };
+                    steps.push(Step { dt_ns: g, seg: tcp::data(h, a, b, sq, ak, vec![], t, ecr, pkt::ACK | pkt::FIN) });
+                }
+                _ => {}
+            }
+        }
+        if r.chance(1, 4) {
+            let g = gap(r, &mut t);
+            let from_client = r.chance(1, 2);
+            let n = if r.chance(1, 2) { 0 } else { r.urange(1, 20) };
+            let body = r.bytes(n);
+            let (h, a, b, sq, ak, ecr) = if from_client { (&hc, client, server, seq_c, seq_s, hs.tsval(t)) } else { (&hs, server, client, seq_s, seq_c, hc.tsval(t)) };
+            steps.push(Step { dt_ns: g, seg: tcp::data(h, a, b, sq, ak, body, t, ecr, pkt::ACK | pkt::RST) });
+        }
+    }
     // every host has a NIC; frames towards the server carry (server mac, client mac) and vice versa
     let (cm, sm) = (pkt::mac(r), pkt::mac(r));
     for st in steps.iter_mut() {
